@@ -303,7 +303,7 @@ class C16(World):
         "disk: per-run scratch directory under /dev/shm; read faults by wrapping pathlib.Path.open, pandas.read_csv, pandas.read_excel, pandas.ExcelFile; write faults by wrapping pandas.ExcelWriter",
         "wall clock read by OpenPinch.utils.export (simulated clock object)",
     ]
-    fault_kinds = ["read_error", "torn_file", "lost_rows", "write_error", "missing_dir", "clock_jump", "abort", "injected_error:memory", "injected_error:os", "same_mtime"]
+    fault_kinds = ["read_error", "torn_file", "lost_rows", "abort_in_load", "write_error", "missing_dir", "clock_jump", "abort", "injected_error:memory", "injected_error:os", "same_mtime"]
     state_abstraction = "per wrapper (something loaded?, channel of last load, result cached?, last load failed?) x fault kind in force"
     rule = (
         "each run = one generated history (3-20 operations) over 1-3 logical problems and 1-3 wrapper objects: load(wrapper, problem, channel) "
@@ -447,9 +447,20 @@ class C16(World):
                 if args.random() < 0.25:
                     st["stem"] = args.choice(HOSTILE_STEMS)  # used only when the problem itself is hostile (JSON channel)
                 if fault:
-                    st["fault"] = args.choice(["read_error", "torn_file", "lost_rows"])
+                    st["fault"] = args.choice(["read_error", "torn_file", "lost_rows", "abort_in_load", "abort_in_load"])
                     st["frac"] = round(args.uniform(0.05, 0.95), 3)
                     st["keep"] = args.randrange(1, 6)
+                    if st["fault"] == "abort_in_load":
+                        # the reader itself is interrupted part-way (Ctrl-C-like, or a failing allocation / system call): the
+                        # wrapper may not end up holding half of the new problem
+                        st["abort_at"] = args.choice([3, 10, 40, 150, 600, 2500])  # in-memory channels; file channels use `frac` of the reader's own line count
+                        st["abort_exc"] = args.choice([None, "memory", "os"])
+                        # half of the interruptions land on one of the reader's last lines: the commit of what was read is where
+                        # a partial assignment would live
+                        st["tail"] = args.choice([None, None, None, None, 0, 1, 2, 3, 4, 6])
+                        if args.random() < 0.6:
+                            st["ch"] = args.choice(["xlsx", "xlsx", "csv_dir", "csv_tuple", "json"])  # the readers with something to interrupt
+                        follow_with_target = True
             elif op == "target":
                 st = dict(op="target", w=args.randrange(nw), twice=args.random() < 0.4)
                 if fault and args.random() < 0.5:
@@ -599,8 +610,26 @@ class C16(World):
 
         def judge_result(step, w_i, res, site_op):
             m = model[w_i]
-            p = m["loaded"]
             name = getattr(res, "name", None)
+            if m.get("alts"):
+                # one or more loads on this wrapper were interrupted part-way: it may hold the problem loaded before or any of the
+                # interrupted ones - each of them completely, never a mixture.  The first candidate the result agrees with is
+                # adopted as what the wrapper holds; if none agrees the result is judged against the problem loaded before.
+                got_ = simplify_output(res)
+                for cand_ in ([dict(m)] if m["loaded"] is not None else []) + list(m["alts"]):
+                    k_, ref_, _t = reference(cand_["loaded"], name, cand_["keep"], cand_["no_options"], cand_.get("tweak", False), cand_.get("ch") == "xlsx")
+                    if k_ == "ok":
+                        loss_ = cand_["ch"] != "xlsx" or survives_15_digits(probs[cand_["loaded"]]["data"])
+                        if not compare_outputs(got_, ref_, total_duty(probs[cand_["loaded"]]["data"]), exact=loss_, graph_tol=(0.011 if loss_ else None)):
+                            if cand_["loaded"] != m["loaded"] or cand_.get("ch") != m.get("ch"):
+                                probe("interrupted_load_had_taken_effect")
+                            m.update({k__: cand_[k__] for k__ in ("loaded", "keep", "no_options", "tweak", "ch", "exact")})
+                            break
+                m["alts"] = []
+                if m["loaded"] is None:
+                    V("channel_eq", f"none|after_interrupted_load|{fault_in_force}", step, "target() after only interrupted loads returned a result that matches none of the problems offered")
+                    return
+            p = m["loaded"]
             kind, ref, ref_text = reference(p, name, m["keep"], m["no_options"], m.get("tweak", False), m.get("ch") == "xlsx")
             if kind != "ok":
                 V("channel_eq", f"{m['ch']}|ref_raises|{fault_in_force}", step, f"wrapper returned a result for problem {p} but the plain-dict service raises {ref}")
@@ -720,7 +749,35 @@ class C16(World):
                             return w.load(TargetInput.model_validate(vu_problem(data)))
                         return w.load(src)
 
-                    kind, val = run_plain(do_load)
+                    if flt == "abort_in_load":
+                        n_at = st["abort_at"]
+                        if src is not None and ch not in ("dict", "from_json", "model", "vu_dict"):
+                            # measure the reader on a throw-away wrapper (deterministic), then interrupt at a fraction of it
+                            cnt, tmp_w = LineTracer(None), PinchProblem()  # constructed outside the measured region, like `w`
+                            cnt.run(lambda: tmp_w.load(src))
+                            n_at = max(1, int(st["frac"] * cnt.n)) if st.get("tail") is None else max(1, cnt.n - st["tail"])
+                        tr = LineTracer(n_at, st.get("abort_exc"))
+                        kind, val = tr.run(do_load)
+                        if not tr.fired:
+                            flt = None  # the load finished before the n-th library line: an ordinary load
+                        elif kind not in ("abort", "raise"):
+                            # swallowed inside the reader, which went on along another path: what the wrapper holds is not constrained
+                            probe("abort_swallowed")
+                            fault_fired("abort_in_load")
+                            m.update(loaded=None, failed_load=True, cached=False, last=None, alts=[])
+                            fault_in_force = "abort_in_load"
+                            log.append([st.get("client", 0), op, "abort_swallowed"])
+                            continue
+                        else:
+                            fault_fired("abort_in_load")
+                            if tr.exc:
+                                fault_fired("injected_error:" + tr.exc)
+                            kind, val = "raise", (val if isinstance(val, Exception) else RuntimeError("SimAbort"))
+                            # old or new, never a mixture: the interrupted load may already have taken effect
+                            m.setdefault("alts", [])
+                            m["alts"] = (m.get("alts") or []) + [dict(loaded=p, keep=keep, no_options=no_options, tweak=tweak, ch=ch, exact=False)]
+                    else:
+                        kind, val = run_plain(do_load)
                     if armed["fired"]:
                         fault_fired("read_error")
                     fault_in_force = flt or "none"
@@ -732,7 +789,7 @@ class C16(World):
                             V("load_must_fail", f"{ch}|{flt}", step, f"load through {ch} succeeded although the file was {flt}")
                         if ch in ("dict", "from_json"):
                             model[w_i] = m = dict(loaded=None, keep=None, no_options=False, cached=False, last=None, ch=None, failed_load=False, exact=False)
-                        m.update(loaded=p, keep=keep, no_options=no_options, tweak=tweak, cached=False, ch=ch, failed_load=False, exact=ch in ("dict", "model", "vu_dict", "from_json", "json", "json_vu"))
+                        m.update(loaded=p, keep=keep, no_options=no_options, tweak=tweak, cached=False, ch=ch, failed_load=False, alts=[], exact=ch in ("dict", "model", "vu_dict", "from_json", "json", "json_vu"))
                         if m["last"] is not None:
                             probe("reload_on_used_wrapper")
                         outcome = "ok"
@@ -755,7 +812,7 @@ class C16(World):
                             # the wrapper holds now is not constrained - nothing is judged on it until the next successful load
                             probe("abort_swallowed")
                             fault_fired("abort")
-                            m.update(loaded=None, failed_load=True, cached=False, last=None)
+                            m.update(loaded=None, failed_load=True, cached=False, last=None, alts=[])
                             log.append([st.get("client", 0), op, "abort_swallowed"])
                             continue
                         if tr.fired:
@@ -776,6 +833,11 @@ class C16(World):
                         if not (kind == "raise" and isinstance(val, RuntimeError)):
                             V("no_input", "target_before_load", step, f"target() before any load: {kind} {type(val).__name__}")
                         outcome = "raise:RuntimeError" if kind == "raise" else "ok?"
+                    elif m["loaded"] is None and m.get("alts") and kind == "ok":
+                        judge_result(step, w_i, val, op)  # adopts the interrupted load that took effect, or reports
+                        if m["loaded"] is not None:
+                            m["cached"], m["last"], m["failed_load"] = True, val, False
+                        outcome = "ok:" + prng.digest(simplify_output(val))
                     elif m["loaded"] is None:
                         outcome = kind  # only failed loads so far: raising or not is not judged
                         probe("target_after_only_failed_loads")
@@ -838,7 +900,7 @@ class C16(World):
                         if tr.fired and kind != "abort" and not was_cached:
                             probe("abort_swallowed")
                             fault_fired("abort")
-                            m.update(loaded=None, failed_load=True, cached=False, last=None)
+                            m.update(loaded=None, failed_load=True, cached=False, last=None, alts=[])
                             log.append([st.get("client", 0), op, "abort_swallowed"])
                             continue
                         if tr.fired:
